@@ -43,6 +43,14 @@ claim("C03", "dominance and value-flow rules on the notify loop and the return s
       "Decides necessary conditions: unresolvable nodes produce neither output nor stage input; returned id and data come from one output node; alternatives of a produced stage output are marked unresolvable; "
       "exactly one validated success return; the no-output-possible error is raised and cancels (C03.R1-R5). Which output wins and equality with a reference evaluation are not decided.", NOTE)
 
+claim("C08", "writer/reader table agreement evaluated on the typed AST (schema-building expressions vs produced value literals) plus dominance rules",
+      "Decides that every engine-generated step output with a literal value is declared by its provider's Lifecycle, is in serialized map form, and has exactly the declared keys with matching Go types (C08.R1); "
+      "that stage inputs, the returned output and the workflow input are validated (R2-R4, shared rules); that loop results are listed as successes only after the sub-run's output id was compared with success (R5). "
+      "Three known findings (plugin deploy_failed/crashed outputs are Go structs; pinned tests assert the struct types). Soundness of ValidateCompatibility / type inference is not decided.", NOTE)
+claim("C19", "dominance and value-flow rules on Execute and the engine entry point",
+      "Decides that every step start, go statement and run-state construction in Execute is dominated by the success edges of input validation and normalisation, that the data model's input is Serialize(Unserialize(caller input)) and written once, "
+      "and that the engine entry point passes the decoded document unchanged (C19.R1-R3). What normalisation does and what steps observe are not decided.", NOTE)
+
 ALL = ["C%02d" % i for i in range(1, 21)]
 for pid in ALL:
     if pid not in P:
